@@ -117,18 +117,19 @@ type failure struct {
 }
 
 type outcome struct {
-	nd       *storeobs.Node
-	rec      *storeobs.RecDB
-	fail     *failure
-	images   int
-	audited  int
-	skipped  int
-	midReorg int // images committed inside a multi-step reorg
-	unsep    int
-	steps    int
-	reverts  int
-	coq      string
-	finalTip int
+	nd                *storeobs.Node
+	rec               *storeobs.RecDB
+	fail              *failure
+	images            int
+	audited           int
+	skipped           int
+	midReorg          int // images committed inside a multi-step reorg
+	unsep             int
+	bestChainCatchUps int
+	steps             int
+	reverts           int
+	coq               string
+	finalTip          int
 
 	naturalFired  bool
 	boundsChecked int
@@ -472,12 +473,55 @@ func runCase(t *chaingen.Tree, cs Case, wantCoq bool) (o outcome) {
 		switch {
 		case !ok:
 			fail(k, "c03-catch-up-ends-elsewhere", "the node reopened from the image after step %d ends on an unknown block", im.Step)
+		case end != final && mgrsim.Heavier(final, end):
+			// whatever else the tree holds: the history contains the batch that took the uninterrupted
+			// node to its final tip, and a manager whose tip is sufficiently lighter than the end of a
+			// batch it is handed reorganises to it, whether or not it has stored those blocks before
+			fail(k, "c03-catch-up-stays-behind", "the node reopened from the image after step %d (tip %d) and fed the whole history again ends on block %d, which is sufficiently lighter than block %d, the tip of the uninterrupted run, although the history contains the call that took the uninterrupted node there", im.Step, tip.Idx, end.Idx, final.Idx)
 		case end != final && !sep:
 			o.unsep++
 		case end != final:
 			fail(k, "c03-catch-up-ends-elsewhere", "the node reopened from the image after step %d (tip %d) and fed the whole history again ends on block %d; the uninterrupted run ends on %d, which is sufficiently heavier than every other valid chain", im.Step, tip.Idx, end.Idx, final.Idx)
 		case !bytes.Equal(mgrsim.EncState(sim.CM.TipState()), encState(final)):
 			fail(k, "c03-catch-up-state-differs", "the node reopened from the image after step %d reaches the final tip %d with a different state", im.Step, final.Idx)
+		}
+		// 5b. catch-up from a peer that is on the chain the uninterrupted node had when the call
+		// during which this image was committed was over: every block of that chain was stored
+		// before the image was committed (AddBlocks stores its batch before it reorganises), so
+		// the reopened node is handed known blocks only; a tip that is sufficiently lighter must
+		// be given up for that chain all the same
+		if j := im.Step; o.fail == nil && j < len(nd.Steps) {
+			for j+1 < len(nd.Steps) && nd.Steps[j+1].Call == nd.Steps[im.Step].Call {
+				j++
+			}
+			if nd.Steps[j].Tip >= 0 {
+				target := t.Nodes[nd.Steps[j].Tip]
+				if target != tip && mgrsim.Heavier(target, tip) {
+					var db3 chain.DB = im.Open()
+					if nd3, err := storeobs.NewNodeFromImage(t, db3, nd.Steps[:im.Step+1], nd.Names); err == nil {
+						var ids []int
+						for _, y := range t.Path(target) {
+							ids = append(ids, y.Idx)
+						}
+						op := mgrsim.Op{Kind: "add", Nodes: ids}
+						obs := nd3.DoObserved(op)
+						o.bestChainCatchUps++
+						if end3, ok := t.ByID[nd3.Sim.CM.Tip().ID]; obs.Panic {
+							fail(k, "c03-catch-up-panics", "handing the chain %v to the node reopened from the image after step %d panicked: %s", op, im.Step, obs.ErrText)
+						} else if !ok || end3 != target {
+							if f, _ := storeobs.Judge(nd3, tw); f != nil && f.Kind == storeobs.KindF8 {
+								o.knownStream++
+							} else {
+								e := -1
+								if ok {
+									e = end3.Idx
+								}
+								fail(k, "c03-catch-up-stays-behind", "the node reopened from the image after step %d (tip %d) was handed, in one call, the blocks of the chain the uninterrupted node was on after that call (tip %d, sufficiently heavier; all of them stored before the image was committed) and ends on block %d (the call returned an error: %v %s)", im.Step, tip.Idx, target.Idx, e, obs.Err, obs.ErrText)
+							}
+						}
+					}
+				}
+			}
 		}
 		if wantCoq && !stats.Trigger && len(ro.hist) == len(plain) && (k < 1 || k+1 == len(rec.Images) || inside(im.Step) && len(mcases) < 2) {
 			var hs []string
@@ -697,6 +741,7 @@ func run(c *hx.Ctx) {
 		res.CountN("images-committed-inside-a-reorg", o.midReorg)
 		res.CountN("images-skipped-after-expiry-order-trigger", o.skipped)
 		res.CountN("catch-ups-ending-elsewhere-without-separation", o.unsep)
+		res.CountN("catch-ups-handed-only-known-blocks-of-a-sufficiently-heavier-chain", o.bestChainCatchUps)
 		res.CountN("catch-ups-in-the-expiry-order-finding-stream", o.knownStream)
 		res.CountN("images-compared-with-the-manager-model's-block-boundaries", o.boundsChecked)
 		if len(o.known) > 0 {
